@@ -44,6 +44,16 @@ let () =
          ^ show_bool (Mismatch.no_mismatch fb (FragmentProofs.cand_of_rows rows)) ^ " "
          ^ show_bool (Sem.valid_b semd rows) ^ ")") (match qs with L l -> l | _ -> failwith "cands"))
     ^ " " ^ show_list show_bool (DerivedFrag.dfrag_why fb)
+    (* the fragment of theorem C17_mismatch_iff_valid_excluded: efrag | per candidate
+       (wf_rowsb_d, no_mismatch, valid_b (code_sem_x fb)) | efrag_why *)
+    ^ " " ^ show_bool (DerivedFrag.efrag fb) ^ " "
+    ^ (let semx = DerivedFrag.code_sem_x fb in
+       show_list (fun q ->
+         let rows = list_of_sexp (list_of_sexp cell_of_sexp) q in
+         "(" ^ show_bool (DerivedFrag.wf_rowsb_d fb rows) ^ " "
+         ^ show_bool (Mismatch.no_mismatch fb (FragmentProofs.cand_of_rows rows)) ^ " "
+         ^ show_bool (Sem.valid_b semx rows) ^ ")") (match qs with L l -> l | _ -> failwith "cands"))
+    ^ " " ^ show_list show_bool (DerivedFrag.efrag_why fb)
     | _ -> "!args");
   (* run counting of check_sequence on a list of cells for level l *)
   register "counts" (function [l; cells] ->
